@@ -18,7 +18,13 @@ A case is {"ops": [...]}:
   ["clear", cls] ["clearRegistries"] ["assignRegistries", k] ["assignFrameRegistry", k]
 `letters` (a string a..z) is what `random.randint` will deliver to this operation.
 
-A *program* case is {"script": [FloScript lines]}: the script is built with the real Builder while the harness
+A *calls* case is {"calls": [...]}: direct use of the classes in the builder's discipline
+  ["house", name] (created and made current) ["assign", k] ["framer", name] ["frame", name] ["tasker", name]
+  ["log", name] ["clone", k, name]   (Framer.clone of the k-th framer made so far, whatever house is current)
+run under the same event recording as a program case.
+
+A *program* case is {"script": [FloScript lines]}: the script is built AND RUN (at most 32 ticks) with the real
+Skedder, so that run-time `rear` clones are made while the last built house's namespace is current; the harness
 records every registry event (Registrar.__init__ with its class and explicit name, Clear, House.assignRegistries,
 Framer.assignFrameRegistry) by wrapping those methods inside the harness process; the recorded event sequence is
 the operation history given to the model (and to the oracle), and the registries are compared after every event.
@@ -265,7 +271,8 @@ class TraceImpl(Impl):
         self.flush()
         self.pending = (op, list(objs), err)
 
-    def build(self, script):
+    def _traced(self, fn):
+        """run fn() with the registry methods wrapped; returns a result word"""
         registering = self.registering
         ParameterError = self.excepting.ParameterError
         housing = self.mods["housing"]
@@ -334,35 +341,106 @@ class TraceImpl(Impl):
             orig_fassign(framer)
             me.pending = (["assignFrameRegistry", me.framers.index(framer) if framer in me.framers else 999], [], None)
 
-        d = tempfile.mkdtemp(prefix="c47-", dir=core.SCRATCH if os.path.isdir(core.SCRATCH) else None)
-        path = os.path.join(d, "prog.flo")
-        with open(path, "w") as f:
-            f.write("\n".join(script) + "\n")
+        from ioflo.base import skedding, storing
+        orig_change = storing.Store.changeStamp
+
+        def bounded_change(store, stamp):
+            if stamp is not None and stamp > 4.0:      # 32 ticks of 1/8 s: enough for every generated plan
+                raise KeyboardInterrupt()              # Skedder.run turns this into an orderly shutdown
+            return orig_change(store, stamp)
+
         registering.random = Supply()
         registering.Registrar.__init__ = traced_init
         registering.Registrar.Clear = classmethod(traced_clear)
         housing.House.assignRegistries = traced_assign
         framing.Framer.assignFrameRegistry = traced_fassign
+        storing.Store.changeStamp = bounded_change
         try:
             try:
-                ok = building.Builder(fileName=path).build()
-                result = "built" if ok else "build-failed"
+                result = fn()
             except Exception as ex:
-                result = "build-raised " + type(ex).__name__
+                result = "raised " + type(ex).__name__
             self.flush()
         finally:
             registering.Registrar.__init__ = orig_init
             registering.Registrar.Clear = orig_clear
             housing.House.assignRegistries = orig_assign
             framing.Framer.assignFrameRegistry = orig_fassign
+            storing.Store.changeStamp = orig_change
             registering.random = self.saved_random
-            try:
-                os.remove(path); os.rmdir(d)
-            except OSError:
-                pass
         if self.unmodelled:
             self.lines.append("HARNESS unmodelled registrar class: %s" % self.unmodelled)
         return result
+
+    def build(self, script, run=True):
+        from ioflo.base import skedding
+        d = tempfile.mkdtemp(prefix="c47-", dir=core.SCRATCH if os.path.isdir(core.SCRATCH) else None)
+        path = os.path.join(d, "prog.flo")
+        with open(path, "w") as f:
+            f.write("\n".join(script).replace("@LOGDIR@", d) + "\n")
+
+        def fn():
+            sk = skedding.Skedder(name="c47", period=0.125, real=False, filepath=path)
+            if not sk.build():
+                return "build-failed"
+            if run:
+                sk.run()
+                return "ran"
+            return "built"
+        try:
+            return self._traced(fn)
+        finally:
+            import shutil
+            shutil.rmtree(d, ignore_errors=True)
+
+    def run_calls(self, calls):
+        """direct use of the classes the way the builder uses them (a house is made current when it is created,
+        instances get the store of the current house, a frame names the current framer), plus `clone`: a direct
+        Framer.clone() of ANY earlier framer, also one of a house that is not the current one"""
+        housing = self.mods["housing"]
+        from ioflo.base import framing, tasking, logging
+        CloneError = self.excepting.CloneError
+        ParameterError = self.excepting.ParameterError
+        st = {"house": None, "framer": None, "framers": []}
+
+        def fn():
+            for c in calls:
+                try:
+                    if c[0] == "house":
+                        h = housing.House(name=c[1])
+                        h.assignRegistries()
+                        st["house"], st["framer"] = h, None
+                    elif c[0] == "assign":
+                        self.flush()                       # the list of registered houses is filled on flush
+                        hs = self.houses
+                        if c[1] < len(hs):
+                            hs[c[1]].assignRegistries()
+                            st["house"], st["framer"] = hs[c[1]], None
+                    elif st["house"] is None:
+                        continue
+                    elif c[0] == "framer":
+                        f = framing.Framer(name=c[1], store=st["house"].store)
+                        f.assignFrameRegistry()
+                        st["framer"] = f
+                        st["framers"].append(f)
+                    elif c[0] == "frame":
+                        if st["framer"] is not None:
+                            framing.Frame(name=c[1], store=st["house"].store, framer=st["framer"].name)
+                    elif c[0] == "tasker":
+                        tasking.Tasker(name=c[1], store=st["house"].store)
+                    elif c[0] == "log":
+                        logging.Log(name=c[1], store=st["house"].store)
+                    elif c[0] == "clone":
+                        if c[1] < len(st["framers"]):
+                            orig = st["framers"][c[1]]
+                            # clone() makes the original's house (and then the clone's frame registry) current
+                            st["house"], st["framer"] = orig.store.house, None
+                            cl = orig.clone(name=c[2], tag=c[2])
+                            st["framers"].append(cl)
+                except (CloneError, ParameterError):
+                    pass
+            return "done"
+        return self._traced(fn)
 
 
 class CHECK(core.Check):
@@ -378,10 +456,14 @@ class CHECK(core.Check):
             "classes, housing.ClearRegistries, House creation (with its Store), assignRegistries / "
             "assignFrameRegistry switches between several houses / framers; non-trivial = an automatic name needed "
             "at least one random letter, an explicit duplicate was rejected and a namespace switch occurred. "
-            "15% of the cases are generated FloScript programs (1-3 houses, framers, frames, moot framers cloned as "
-            "named and insular auxiliaries also from other moots, loggers, logs, a planted duplicate in a quarter of "
-            "them) built with the real Builder while the harness records every registry event; the recorded event "
-            "sequence drives the model (non-trivial: >= 12 events with framers, frames and a switch); distinct by content")
+            "12% of the cases are generated FloScript programs (1-3 houses, framers, frames, moot framers cloned at "
+            "build time as named and insular auxiliaries, also from other moots, and at RUN time by `rear` while the "
+            "last built house's namespace is current; inactive loggers, logs; a planted duplicate in a quarter of "
+            "them) built and run (<= 32 ticks) with the real Skedder, and 10% are direct-call histories in the "
+            "builder's discipline with Framer.clone() of framers of a house that is not the current one, half of them "
+            "under a name taken in the clone's own house; the harness records every registry event and the recorded "
+            "event sequence drives the model (non-trivial: >= 12 events with framers, frames and a switch, resp. a "
+            "clone and a switch); distinct by content")
     TRUSTED = ["correspondence: the real registering/housing/framing/tasking/logging/storing classes in-process vs the "
                "Lean model (driver engine 'registry'); compared after every operation: result, the dict each class's "
                "Names is bound to, the content of every registry dict ever made",
@@ -392,7 +474,7 @@ class CHECK(core.Check):
                "Registrar.Clear, House.assignRegistries and Framer.assignFrameRegistry inside the harness process "
                "(nothing in /repo is edited); the recorded events are the model's input, its predictions are compared "
                "after each event"]
-    PARTIAL = ["not modelled: Framer.prune (removes a clone from Framer.Names), Clear() called on a subclass by hand is "
+    PARTIAL = ["not modelled and not generated: Framer.prune / `raze` (removes a clone from the CURRENT Framer.Names), Clear() called on a subclass by hand is "
                "modelled but not generated, Monitor/Server taskers, Registrar subclasses outside ioflo.base, "
                "non-string names (ParameterError), building a FloScript (names come from the script)"]
     TECHNIQUE = ("Lean 4 theorems (invariant over all histories; induction over the letter supply) + differential "
@@ -424,13 +506,14 @@ class CHECK(core.Check):
         return "".join(rng.choice("ab") for _ in range(rng.choice([6, 8, 10])))
 
     def _script(self, rng):
-        """a FloScript program with several houses, framers, frames, moot framers cloned as named and insular
-        auxiliaries (also from inside other moot framers; the clone graph is acyclic), loggers and logs; in a
-        quarter of the programs one duplicate name is planted (house, framer, frame, log, or a framer named like
-        a clone)"""
+        """a FloScript program with 1-3 houses, each with active framers whose frames step on every tick and end
+        in `bid stop all`, moot framers cloned at BUILD time (`aux … as tag/mine`, also from other moots; the clone
+        graph is acyclic) and at RUN time (`rear … in frame …`, executed while the LAST built house's namespace is
+        the current one), inactive loggers with logs; in a quarter of the programs one duplicate name is planted
+        (house, framer, frame, log, a framer named like a build-time clone or like a run-time clone)"""
         L = []
-        fault = rng.choice(["house", "framer", "frame", "log", "clonename"]) if rng.random() < 0.25 else None
-        houses = rng.sample(["h1", "h2", "box", "sea"], rng.choice([1, 1, 2, 3]))
+        fault = rng.choice(["house", "framer", "frame", "log", "clonename", "rearname"]) if rng.random() < 0.25 else None
+        houses = rng.sample(["h1", "h2", "box", "sea"], rng.choice([1, 2, 2, 3]))
         if fault == "house" and len(houses) > 1:
             houses[-1] = houses[0]
         for h in houses:
@@ -440,16 +523,17 @@ class CHECK(core.Check):
             if fault == "framer" and rng.random() < 0.7:
                 mains.append(rng.choice(mains + moots))
             tags = iter("c%d" % i for i in range(100))
-            planted = []
-            for f in mains:
-                frames = rng.sample(["start", "run", "fin", "A", "B", "wait"], rng.choice([1, 2, 3, 4]))
+            planted, reared = [], []
+            for fi, f in enumerate(mains):
+                frames = rng.sample(["start", "run", "fin", "A", "B", "wait"], rng.choice([2, 3, 4]))
                 if fault == "frame" and rng.random() < 0.6:
                     frames.append(frames[0])
-                L.append("framer %s be %s first %s" % (f, rng.choice(["active", "inactive"]), frames[0]))
+                L.append("framer %s be %s first %s" % (f, "active" if fi == 0 else rng.choice(["active", "inactive"]),
+                                                       frames[0]))
                 for j, fr in enumerate(frames):
                     L.append("  frame " + fr)
                     L.append("    print " + fr)
-                    if moots and rng.random() < 0.6:
+                    if moots and rng.random() < 0.5:
                         m = rng.choice(moots)
                         if rng.random() < 0.5:
                             tg = next(tags)
@@ -457,10 +541,20 @@ class CHECK(core.Check):
                             planted.append("%s_%s" % (f, tg))
                         else:
                             L.append("    aux %s as mine" % m)
-                    if rng.random() < 0.5 and j + 1 < len(frames):
+                    if moots and j + 1 < len(frames) and rng.random() < 0.5:
+                        m = rng.choice(moots)
+                        others = [x for x in frames if x != fr]
+                        L.append("    rear %s in frame %s" % (m, rng.choice(others)))
+                        reared.append("%s_%s1" % (f, m))
+                    if j + 1 < len(frames):
                         L.append("    go next")
+                    else:
+                        L.append("    bid stop all")
             if fault == "clonename" and planted:
                 L.append("framer %s be inactive first x" % rng.choice(planted))
+                L.append("  frame x")
+            if fault == "rearname" and reared:
+                L.append("framer %s be inactive first x" % rng.choice(reared))
                 L.append("  frame x")
             for i, m in enumerate(moots):
                 frames = rng.sample(["A", "B", "C", "start"], rng.choice([1, 2, 3]))
@@ -471,11 +565,12 @@ class CHECK(core.Check):
                     later = moots[i + 1:]
                     if later and rng.random() < 0.4:
                         L.append("    aux %s as %s" % (rng.choice(later), rng.choice(["mine", next(tags)])))
+                    L.append("    go next")
                 L.append("  frame Z")
                 L.append("    done")
             lognames = ["l1", "l2", "l3", "nav"]
             for lg in rng.sample(["lg", "rec"], rng.choice([0, 1, 2])):
-                L.append("logger %s at 0.5" % lg)
+                L.append("logger %s to @LOGDIR@ at 0.5 be inactive" % lg)
                 logs = [x + lg for x in rng.sample(lognames, rng.choice([0, 1, 2, 3]))]
                 if fault == "log" and logs:
                     logs.append(logs[0])
@@ -483,10 +578,46 @@ class CHECK(core.Check):
                     L.append("  log %s on %s" % (l, rng.choice(["update", "never", "once"])))
         return L
 
+    def _calls(self, rng):
+        """direct calls in the builder's discipline with 2-3 houses, then clones of framers of ANY house — half of
+        them under a name already used by a framer of the clone's own house — while another house is current"""
+        calls, per_house, owner = [], [], []       # owner[i] = house index of framer i
+        cur = None
+        for _ in range(rng.choice([8, 15, 25, 40])):
+            r = rng.random()
+            if cur is None or (r < 0.12 and len(per_house) < 3):
+                calls.append(["house", "h%d" % len(per_house)])
+                per_house.append([])
+                cur = len(per_house) - 1
+            elif r < 0.40:
+                nm = rng.choice(["main", "nav", "work", "w%d" % rng.randrange(4), "main_x", "nav_x"])
+                calls.append(["framer", nm])
+                if nm not in per_house[cur]:
+                    per_house[cur].append(nm); owner.append(cur)
+            elif r < 0.55:
+                calls.append(["frame", rng.choice(["start", "run", "fin", "A"])])
+            elif r < 0.62:
+                calls.append([rng.choice(["tasker", "log"]), rng.choice(["t1", "t2", "main", "l1"])])
+            elif r < 0.75:
+                k = rng.randrange(len(per_house))
+                calls.append(["assign", k]); cur = k
+            elif owner:
+                k = rng.randrange(len(owner))
+                own = per_house[owner[k]]
+                nm = rng.choice(own) if rng.random() < 0.5 else rng.choice(["main_x", "nav_x", "c%d" % rng.randrange(5)])
+                calls.append(["clone", k, nm])
+                if nm not in own:
+                    own.append(nm); owner.append(owner[k])
+        return calls
+
     def generate(self, rng, n, tier):
         for _ in range(n):
-            if rng.random() < 0.15:
+            r0 = rng.random()
+            if r0 < 0.12:
                 yield {"script": self._script(rng)}
+                continue
+            if r0 < 0.22:
+                yield {"calls": self._calls(rng)}
                 continue
             L = rng.choice([1, 3, 8, 15, 30, 50])
             ops, used, nh, nf = [], [], 0, 0
@@ -536,10 +667,10 @@ class CHECK(core.Check):
 
     # ---- both sides
     def impl(self, case):
-        if "script" in case:
+        if "script" in case or "calls" in case:
             im = TraceImpl()
             try:
-                result = im.build(case["script"])
+                result = im.build(case["script"]) if "script" in case else im.run_calls(case["calls"])
             finally:
                 im.close()
             self.__dict__.setdefault("_traces", {})[core.case_key(case)] = im.ops
@@ -560,7 +691,7 @@ class CHECK(core.Check):
 
     def requests(self, case):
         reqs = ["reset"]
-        for op in (self._trace_ops(case) if "script" in case else case["ops"]):
+        for op in (self._trace_ops(case) if ("script" in case or "calls" in case) else case["ops"]):
             k = op[0]
             if k == "new":
                 reqs.append("new %s %s %s" % (op[1], hx(op[2]), op[3] or "-"))
@@ -576,7 +707,7 @@ class CHECK(core.Check):
 
     def model_post(self, case, replies):
         out = self._model_post(replies)
-        if "script" in case:
+        if "script" in case or "calls" in case:
             # the event and the build result are inputs, not predictions: copy them from the trace
             ops = self._trace_ops(case)
             out = [json.dumps(op) + " ## " + line for op, line in zip(ops, out)]
@@ -616,7 +747,7 @@ class CHECK(core.Check):
         return parts[0], binds, dicts
 
     def oracle(self, case, out):
-        if "script" in case:
+        if "script" in case or "calls" in case:
             if not out or not out[-1].startswith("RESULT "):
                 return "harness: %s" % (out[-1:] or "no output")
             body = out[:-1]
@@ -772,7 +903,7 @@ class CHECK(core.Check):
     # ---- statistics
     def _split(self, case, out):
         """(ops, result lines) for both kinds of case"""
-        if "script" in case:
+        if "script" in case or "calls" in case:
             body = [l for l in out[:-1] if " ## " in l]
             return [json.loads(l.split(" ## ", 1)[0]) for l in body], [l.split(" ## ", 1)[1] for l in body]
         return case["ops"], out
@@ -795,6 +926,9 @@ class CHECK(core.Check):
         return looped, dup, switch
 
     def nontrivial(self, case, out):
+        if "calls" in case:
+            ops, _ = self._split(case, out)
+            return any(c[0] == "clone" for c in case["calls"]) and self._stats(case, out)[2] and len(ops) >= 8
         if "script" in case:
             ops, _ = self._split(case, out)
             kinds = set(op[1] for op in ops if op[0] == "new")
@@ -803,6 +937,9 @@ class CHECK(core.Check):
 
     def bucket(self, case, out):
         looped, dup, switch = self._stats(case, out)
+        if "calls" in case:
+            n = len(self._split(case, out)[0])
+            return "calls ev%s %s" % ("<20" if n < 20 else "20+", "dup " if dup else "")
         if "script" in case:
             n = len(self._split(case, out)[0])
             return "program ev%s %s%s" % ("<20" if n < 20 else "20-59" if n < 60 else "60+", "dup " if dup else "",
@@ -812,6 +949,11 @@ class CHECK(core.Check):
                                  "loop " if looped else "", "dup " if dup else "", "switch" if switch else "")
 
     def shrink_candidates(self, case):
+        if "calls" in case:
+            cs = case["calls"]
+            for i in range(len(cs)):
+                yield {"calls": cs[:i] + cs[i + 1:]}
+            return
         if "script" in case:
             lines = case["script"]
             for i in range(len(lines)):
